@@ -523,6 +523,14 @@ def _run_property(prop: Property, ctx: Ctx, a) -> int:
                     proof["discharged"] += 1
                 else:
                     broken.append(f"theorem {t} depends on {axs}")
+        # 3b. thorough tier: independent re-check of the compiled .olean files with leanchecker
+        if build_ok and ctx.thorough:
+            mods = [f[:-5].replace("/", ".") for f in files]
+            with _Lock(False):
+                rc_lc, out_lc = _run(["lake", "env", "leanchecker"] + mods, cwd=LEAN_DIR, timeout=3600)
+            proof["leanchecker"] = {"modules": mods, "rc": rc_lc, "output_tail": out_lc[-300:]}
+            if rc_lc != 0:
+                broken.append("leanchecker rejected the compiled modules: " + out_lc[-300:])
     else:
         proof["discharged"] = proof["obligations"]
 
@@ -610,6 +618,7 @@ def _run_property(prop: Property, ctx: Ctx, a) -> int:
             "trusted_base": TRUSTED_COMMON + list(prop.trusted),
             "theorems": proof["theorems"],
             "generated_sites": proof["generated_sites"],
+            "leanchecker": proof.get("leanchecker", "not run (thorough tier only)"),
             "evaluations": ctx.evaluations,
             "distinct_nontrivial": len(ctx.distinct),
             "rule": prop.rule,
